@@ -168,12 +168,17 @@ def handle : Handler := fun op inp impl => do
         let implPanic := (jopt impl "panic").isSome
         let holds := match ik with
           | some keys => [("C07.foreign_event_ignored", brFrame brs o keys)] ++
-              (if t == "update" then [("C07.workload_progress_wakes_br", wlProgressWakes old o keys)] else [])
-          | none => [("C07.handler_no_panic", implPanic && o.ty == .replicaSet)]
+              (if t == "update" then [("C07.workload_progress_wakes_br", wlProgressWakes old o keys)] else []) ++
+              [("C09.handler_no_panic", true)]
+          -- C09: no API-reachable workload object (e.g. an unstructured one whose revision fields have another JSON type) may
+          -- crash the handler, which runs on the informer goroutine (a typed ReplicaSet never reaches it: no such watch)
+          | none => [("C07.handler_no_panic", implPanic && o.ty == .replicaSet), ("C09.handler_no_panic", implPanic && o.ty == .replicaSet)]
+        let nonStr (w : Json) : Bool := (jopt (jgetD w "status" .null) "nonString").isSome
+        let nsTag := if nonStr (jgetD ev "wl" .null) || nonStr (jgetD ev "wlOld" .null) then ["wl:nonStringRevision"] else []
         let nOwn := match switchKind o.ty with | some g => (owners brs o.ns o.name g).length | none => 0
         let prog := if t == "update" then [if wlProgressed old o then "wl:progressed" else "wl:no-progress"] else []
         return { model := ← enqJson out, holds := holds,
-                 tags := baseTags ++ [ctlTag, s!"owners:{nOwn}", s!"candidates:{brs.length}"] ++ prog ++ (match out with | .keys ks => [nTag ks] | _ => ["enq:panic"]) }
+                 tags := baseTags ++ [ctlTag, s!"owners:{nOwn}", s!"candidates:{brs.length}"] ++ prog ++ nsTag ++ (match out with | .keys ks => [nTag ks] | _ => ["enq:panic"]) }
     | "pod" =>
       let p ← podOfJson (← jget ev "pod")
       let old ← (match jopt ev "podOld" with | some x => podOfJson x | none => pure p)
